@@ -67,6 +67,9 @@ func routeGen(kind string, sequential bool) func(r *rand.Rand, tier string) []sp
 					p.Items = append(p.Items, it)
 					continue
 				}
+				if kind != "mux" && r.Intn(7) == 0 {
+					it.SlowMs = pick(r, []int{150, 400})
+				}
 				it.ID = nextID[accSide]
 				nextID[accSide]++
 				open = append(open, [2]any{accSide, it.ID})
